@@ -25,7 +25,7 @@ from .evutil import BASE, ev_unwire, ev_view, ev_wire, mk_event, pulse_us
 RULE = ("exhaustive chains of 0..3 (quick) / 0..4 (thorough) events on a grid {gap 0,<p,=p,>p} x {dur 0,1,3} x "
         "{2 labels}, sampled chains of 4..6 / 5..6 events, every other chain shuffled; seeded random well-formed "
         "chains; an out-of-domain stream (overlaps, negative gaps at the 0.1 s threshold, negative/sub-ms durations) "
-        "for correspondence only; non-trivial = distinct canonical case in which the model's walk took a branch "
+        "and an off-millisecond-grid stream for correspondence only; non-trivial = distinct canonical case in which the model's walk took a branch "
         "other than `continue`/`none`")
 
 DATA = [{"app": "a"}, {"app": "b"}, {"n": 1}, {"n": 1.0}, {"n": True}, {}, {"app": "a", "title": "x"}]
@@ -148,6 +148,27 @@ def gen_ood_random(rng, n_cases):
         yield ("ood", p, evs)
 
 
+def gen_offgrid(rng, n_cases):
+    """Everything as the property asks, except that durations are not whole milliseconds (Event floors
+    timestamps but keeps durations to the microsecond).  Outside the theorems' domain; the oracle is
+    evaluated for the record only (C10_off_ms_grid_refuted)."""
+    yield ("offgrid", 1, [(BASE, 1500, DATA[0]), (BASE + 2000, 3000, DATA[1])])
+    yield ("offgrid", 1, [(BASE, 2000, DATA[0]), (BASE + 3000, 1500, DATA[0]), (BASE + 5000, 5000, DATA[1])])
+    yield ("offgrid", 0.9999, [(BASE, 2000, DATA[0]), (BASE + 3000, 1500, DATA[0]), (BASE + 1_004_000, 1000, DATA[1])])
+    for _ in range(n_cases):
+        n = rng.randrange(2, 6)
+        t = BASE
+        evs = []
+        for _ in range(n):
+            t += rng.choice((1, 2, 3)) * 1000
+            d = rng.choice((0, 1, 3)) * 1000 + rng.choice((0, 0, 250, 500, 999))
+            evs.append((t, d, DATA[rng.choice((0, 1))]))
+            t += (d // 1000) * 1000
+        if rng.random() < 0.5:
+            evs = rng.sample(evs, len(evs))
+        yield ("offgrid", 0.002, evs)
+
+
 def corpus_cases():
     path = os.path.join(common.VERIF, "corpus", "c10_chains.json")
     if not os.path.exists(path):
@@ -169,7 +190,10 @@ def run_impl(case, Event, flood, labels):
     snapshot = copy.deepcopy(objs)
     snapshot_raw = [dict(o) for o in snapshot]
     inp = [ev_view(o, labels) for o in objs]
-    out = flood(objs, p)
+    try:
+        out = flood(objs, p)
+    except Exception as ex:      # the model never raises: reported by the caller
+        return inp, [], "flood raised %s: %s" % (type(ex).__name__, str(ex)[:120])
     modified = None
     if len(objs) != len(snapshot) or sorted(id(o) for o in objs) != sorted(before_ids):
         modified = "the input list has other members after the call"
@@ -190,19 +214,19 @@ def run_impl(case, Event, flood, labels):
 # the property statement, computed independently on the implementation's output
 
 
-def in_domain(S):
+def in_domain(S, grid=True):
     """S: input views sorted by start.  Non-overlapping (end_i <= start_{i+1}), non-negative,
     millisecond-aligned.  (Distinct timestamps are counted separately: the theorems do not need them
     once the precondition is read on the sorted sequence.)"""
     for (_, t, d, _) in S:
-        if d < 0 or t % 1000 or d % 1000:
+        if d < 0 or t % 1000 or (grid and d % 1000):
             return False
     return all(a[1] + a[2] <= b[1] for a, b in zip(S, S[1:]))
 
 
-def oracle(P, inp, out):
+def oracle(P, inp, out, grid=True):
     S = sorted(inp, key=lambda v: v[1])      # Python's own stable sort, as flood does
-    if not in_domain(S):
+    if not in_domain(S, grid):
         return "skip"
     for (_, t, d, _) in out:
         if d <= 0:
@@ -259,6 +283,7 @@ def main(argv=None):
     cases += list(gen_random(ck.rng, n_rand))
     cases += list(gen_ood_grid())
     cases += list(gen_ood_random(ck.rng, n_ood))
+    cases += list(gen_offgrid(ck.rng, n_ood // 10))
 
     labels = common.Labels()
     wire, impl, inputs = [], [], []
@@ -271,14 +296,34 @@ def main(argv=None):
         wire.append(wire_case(P, inp))
         ck.count("stream:" + stream)
         ck.count("len=%d" % len(evs))
-        if modified:
+        if modified and modified.startswith("flood raised"):
+            if in_domain(sorted(inp, key=lambda v: v[1])):
+                ck.failing_input("C10:raised", modified, {"pulsetime_s": p, "events_us_rel": rel(inp)})
+            else:
+                ck.disagreement("flood[%s]" % stream, modified + f" on {rel(inp)} p={p} (the model returns a list)",
+                                {"pulsetime_s": p, "events_us_rel": rel(inp)})
+            impl[-1] = None
+        elif modified:
             ck.failing_input("C10:input-modified", "input modified: " + modified,
                              {"pulsetime_s": p, "pulsetime_us": P, "events_us_rel": rel(inp), "impl_output_us_rel": rel(out),
                               "rerun": "PYTHONPATH=%s /venv/bin/python -c \"%s\"" % (common.REPO, replay_snippet(p, evs, show_input=True))})
         bad = oracle(P, inp, out)
+        if stream == "offgrid" and bad == "skip":
+            # for the record: the statement without its millisecond-grid hypothesis, on the implementation
+            off = oracle(P, inp, out, grid=False)
+            if off not in (None, "skip"):
+                ck.count("offgrid:statement-violated(" + off.split(":")[0] + ")")
+                w = ck.coverage.setdefault("off_ms_grid_witnesses", [])
+                if len(w) < 3:
+                    w.append({"pulsetime_s": p, "events_us_rel": rel(inp), "impl_output_us_rel": rel(out), "what": off})
+                if any(k.get("signature") == "C10:off-ms-grid" for k in ck.known):
+                    ck.failing_input("C10:off-ms-grid", off, {"pulsetime_s": p, "events_us_rel": rel(inp),
+                                                              "impl_output_us_rel": rel(out)})
+            elif off is None:
+                ck.count("offgrid:statement-holds")
         if bad == "skip":
             ck.count("oracle:not-applicable(out of domain)")
-            if stream in ("grid", "random") and stream != "ood":
+            if stream in ("grid", "random"):
                 ck.count("out-of-domain-in-" + stream + "(ties reordered by the shuffle)")
         else:
             ck.count("oracle:applied")
@@ -309,6 +354,8 @@ def main(argv=None):
         for case, w, mo, io, inp in zip(cases, wire, model, impl, inputs):
             if mo == [-999] or len(mo) != 2:
                 ck.disagreement("flood", f"driver could not decode {w}", {"case": w})
+                continue
+            if io is None:       # the implementation raised; already reported
                 continue
             mo_c = [ev_unwire(e) for e in mo[0]]
             io_c = [tuple(e) for e in io]
